@@ -191,8 +191,9 @@ class WsgiRun:
         return {"rpc": rpc, "cpc": cpc, "delivered": delivered, "pings": pings, "genClosed": len(self.log),
                 "produced": self.yields, "outcome": outcome}
 
-    def complete(self):
-        """close (if still open) and let every thread that can move, move; returns what went wrong, if anything"""
+    def complete(self, no_relay_start=False):
+        """close (if still open) and let every thread that can move, move; returns what went wrong, if anything.
+        no_relay_start: every pool worker is busy elsewhere - a relay job that has not started yet never starts"""
         s = self.s
         for _ in range(200):
             with s.cv:
@@ -210,8 +211,8 @@ class WsgiRun:
                 lab = rel[1]
                 blocked = isinstance(lab, tuple) and lab[0] in ("put", "blocked-put") and len(qitems) >= 1
                 fut = self.pool.future
-                if lab == "relay-start" and fut is not None and fut.cancelled():
-                    blocked = True   # nothing to do for a cancelled job
+                if lab == "relay-start" and ((fut is not None and fut.cancelled()) or no_relay_start):
+                    blocked = True   # nothing to do for a cancelled job / no worker will ever pick it up
                 if not blocked:
                     if not s.step("relay", "go")[0]:
                         return "relay thread blocked outside any control point (real block)"
@@ -321,6 +322,21 @@ def replay_wsgi(ctx, g):
             if bad:
                 ctx.violation(case, "call returns; generator cleaned up exactly once; no thread left; delivery in order",
                               run.observe(), bad[0], {"failed_clauses": bad, "module": "SseWsgi"})
+            # the same schedule with every pool worker busy elsewhere: a relay that has not started yet never will
+            if ok and exp["rpc"] == "queued":
+                run2 = WsgiRun(st0["n"], st0["raiseAt"], st0["cleanupRaises"])
+                try:
+                    if all(run2.apply(graph.parse_action(l)[0]) for l in steps):
+                        problem = run2.complete(no_relay_start=True)
+                        bad = [problem] if problem else [b for b in run2.final_clauses() if "pool thread" not in b or not run2.pool.future.cancelled()]
+                        if bad:
+                            ctx.violation(dict(case, pool="every worker busy: the relay job never starts"),
+                                          "close() returns although the relay never started", run2.observe(), bad[0],
+                                          {"failed_clauses": bad, "module": "SseWsgi"})
+                        ctx.count()
+                        ctx.nontriv(tuple(["nopool", st0["n"], st0["raiseAt"]] + steps))
+                finally:
+                    run2.shutdown()
             ctx.count()
             ctx.traces_validated += 1
             n_edges += 1
@@ -407,7 +423,7 @@ def run(ctx):
                        "threads are pre-empted observably only at queue / future / generator-yield operations"]
     wd = tlc.workdir_for("c06")
     tlc.sany(wd + "/SseWsgi.tla")
-    K = dict(MaxN=maxn, Fixed=True)
+    K = dict(MaxN=maxn, Fixed=True, CancelFirst=True)
     cfg = ["SPECIFICATION Spec", "CONSTRAINT Bound", "CHECK_DEADLOCK FALSE"] + ["INVARIANT " + i for i in WSGI_INV]
     tlc.write_mc(wd, "MC_SseWsgi", "SseWsgi", constants=K, cfg_lines=cfg)
     res = tlc.run_tlc(wd, "MC_SseWsgi", dump=True, workers=4)
@@ -416,14 +432,27 @@ def run(ctx):
         raise common.MachineryError("SseWsgi.tla: " + tlc.describe(res))
     tlc.check_coverage(res, WSGI_ACTIONS)
     # liveness under fairness (no state constraint other than the ping bound)
-    tlc.write_mc(wd, "MC_SseWsgiLive", "SseWsgi", constants=dict(MaxN=2, Fixed=True),
+    tlc.write_mc(wd, "MC_SseWsgiLive", "SseWsgi", constants=dict(MaxN=2, Fixed=True, CancelFirst=True),
                  cfg_lines=["SPECIFICATION FairSpec", "CONSTRAINT Bound", "CHECK_DEADLOCK FALSE", "PROPERTY Terminates"])
     lres = tlc.run_tlc(wd, "MC_SseWsgiLive", workers=4, coverage=False)
     ctx.add_tlc("SseWsgi(liveness)", lres, dict(MaxN=2))
     if lres.violated:
         raise common.MachineryError("SseWsgi.tla liveness: " + tlc.describe(lres))
+    # pool exhausted: no fairness for the relay's start; close() must return all the same
+    tlc.write_mc(wd, "MC_SseWsgiNoPool", "SseWsgi", constants=dict(MaxN=2, Fixed=True, CancelFirst=True),
+                 cfg_lines=["SPECIFICATION FairSpecNoPool", "CONSTRAINT Bound", "CHECK_DEADLOCK FALSE", "PROPERTY CloseReturns"])
+    pres = tlc.run_tlc(wd, "MC_SseWsgiNoPool", workers=4, coverage=False)
+    ctx.add_tlc("SseWsgi(liveness CloseReturns, no pool worker)", pres, dict(MaxN=2))
+    if pres.violated:
+        raise common.MachineryError("SseWsgi.tla liveness CloseReturns: " + tlc.describe(pres))
+    tlc.write_mc(wd, "MC_SseWsgiNoCancel", "SseWsgi", constants=dict(MaxN=2, Fixed=True, CancelFirst=False),
+                 cfg_lines=["SPECIFICATION FairSpecNoPool", "CONSTRAINT Bound", "CHECK_DEADLOCK FALSE", "PROPERTY CloseReturns"])
+    wres2 = tlc.run_tlc(wd, "MC_SseWsgiNoCancel", workers=4, coverage=False)
+    if wres2.violated != "CloseReturns":
+        raise common.MachineryError("witness failed: SseWsgi.tla with CancelFirst=FALSE does not violate CloseReturns (%s)" % wres2.violated)
+    ctx.notes.append("witness: a finally block that does not try cancel() first (CancelFirst=FALSE) violates CloseReturns when no pool worker is free")
     # witness: the original finally block must deadlock in the model
-    tlc.write_mc(wd, "MC_SseWsgiOrig", "SseWsgi", constants=dict(MaxN=2, Fixed=False),
+    tlc.write_mc(wd, "MC_SseWsgiOrig", "SseWsgi", constants=dict(MaxN=2, Fixed=False, CancelFirst=True),
                  cfg_lines=["SPECIFICATION Spec", "CONSTRAINT Bound", "CHECK_DEADLOCK FALSE", "INVARIANT NoStuck"])
     wres = tlc.run_tlc(wd, "MC_SseWsgiOrig", workers=4, coverage=False)
     if wres.violated != "NoStuck":
